@@ -499,6 +499,29 @@ def o_third_order(case):
     return None
 
 
+@oracle
+def o_numeric_levels(case):
+    """numeric vs analytic for an arbitrary level set (any order, repeats allowed): the error in every
+    output slot is the error of that level in the bottom-to-top request of all levels"""
+    par = case["par"]
+    base = dict(base_of(case), precision="double")
+    n = par["n0"]
+    allv = list(range(n + 1))
+    fn, fa = solve3(dict(base, levels=allv, analytic=False)), solve3(dict(base, levels=allv, analytic=True))
+    lv = [int(x) for x in par["levels"]]
+    num, ana = solve3(dict(base, levels=lv, analytic=False)), solve3(dict(base, levels=lv, analytic=True))
+    fl = field_floor(base)
+    for name, k in (("conc", 0), ("flx", 1)):
+        sc = max(float(np.max(np.abs(fa[k]))), fl[k], 1e-300)
+        for slot, l in enumerate(lv):
+            ref = float(np.max(np.abs(fn[k][l] - fa[k][l]))) / sc
+            e = float(np.max(np.abs(num[k][slot] - ana[k][slot]))) / sc
+            if not e <= 2.0 * ref + 1e-9:
+                return fail("C05/level-set/%s" % name, "numeric and closed form disagree in output slot %d (level %d of the request %s) by more than that level's "
+                            "discretisation error" % (slot, l, lv), None, "<= %.3e" % (2 * ref + 1e-9), e, None)
+    return None
+
+
 def resolved_uniform_case(rng, n0=None):
     c = random_case(rng, analytic=False)
     ny, nx = c["q"].shape
@@ -540,6 +563,12 @@ def run_C05(rng, tier, deep):
         run_oracle(st, o_closed_form, c)
     for _ in range(budget(tier, deep, 8, 60)):
         run_oracle(st, o_third_order, resolved_uniform_case(rng))
+    for _ in range(budget(tier, deep, 10, 80)):
+        c = resolved_uniform_case(rng)
+        n = c["par"]["n0"]
+        k = int(rng.integers(2, 5))
+        c["par"]["levels"] = [int(x) for x in (rng.permutation(n + 1)[:k] if rng.random() < 0.7 else rng.integers(0, n + 1, size=k))]
+        run_oracle(st, o_numeric_levels, c)
     return finish(st, "uniform-profile requests (analytic and numeric, all halo/level/mode kinds); closed-form oracle = independent direct spectral synthesis "
                   "in numpy; order oracle = numeric vs analytic at n, 2n, 4n layers in the resolved regime (|mu dz| <= 0.5)", deep, TOL)
 
@@ -1094,9 +1123,17 @@ def o_convergence(par):
     if not errs[0] <= 3.0 * rel_dz:
         return fail("C01/error-size", "error on a resolving grid exceeds a small multiple (3x) of the relative layer thickness", None,
                     "<= %g" % (3 * rel_dz), errs, None)
-    for e0, e1 in zip(errs, errs[1:]):
+    for i, (e0, e1) in enumerate(zip(errs, errs[1:])):
         if e0 > 1e-7 and e1 > 1e-9:
             if not e0 / e1 >= 2.5:
+                # known finding F1 (known_findings.json): on a coarsest grid whose layers are thicker than 0.5 x their own
+                # height (strongly stretched grids), the FIRST quartering gains only 2.0-2.5x although the grid
+                # "resolves" the component in the property's sense; the next quartering gains the full ~4x
+                nxt = errs[1] / errs[2] if errs[2] > 0 else float("inf")
+                if i == 0 and rel_dz > 0.5 and e0 / e1 >= 2.0 and nxt >= 3.5:
+                    return fail("C01/ratio/coarse-stretched-first-quartering",
+                                "first quartering of a grid with relative layer thickness %.2f gains %.2fx (< 2.5); the next one %.2fx" % (rel_dz, e0 / e1, nxt),
+                                None, ">= 2.5", errs, None)
                 return fail("C01/ratio", "error shrinks by less than 2.5x when the layer thickness is quartered", None, ">= 2.5", errs, None)
     return None
 
@@ -1114,6 +1151,19 @@ def conv_par(rng):
                 n0=int(rng.choice([8, 12, 16])), gamma=float(rng.choice([1.0, 1.5, 2.0])), out_frac=float(rng.choice([0.25, 0.5, 0.75])))
 
 
+def _load_corpus(name):
+    import json
+    import os
+    p = os.path.join(os.path.dirname(os.path.abspath(__file__)), "..", "..", "corpus", name)
+    try:
+        return json.load(open(p))
+    except OSError:
+        return []
+
+
+C01_CORPUS = _load_corpus("C01.json")      # minimised past failures: run first, every time
+
+
 def run_C01(rng, tier, deep):
     st = new_stats()
     cases = []
@@ -1123,6 +1173,8 @@ def run_C01(rng, tier, deep):
         limit_growth(c)
         cases.append(c)
     correspond(cases, st)
+    for par in C01_CORPUS:
+        run_oracle(st, o_convergence, dict(par))
     for _ in range(budget(tier, deep, 6, 60)):
         run_oracle(st, o_convergence, conv_par(rng))
     return finish(st, "correspondence on height-dependent profiles; oracle: per-mode transfer functions fft2(out)/fft2(src) at n, 4n, 16n layers "
